@@ -91,7 +91,9 @@ def classify_producer(x, case, witness):
 
 def brief(case):
     c = {k: v for k, v in case.items() if k != "suite"}
-    if case.get("suite"):
+    if case.get("suite") and case["suite"].get("path"):
+        c["suite"] = "shipped tp_folder"
+    elif case.get("suite"):
         c["suite_tests"] = [t["name"] for t in case["suite"]["tests"]]
     return c
 
@@ -284,9 +286,10 @@ def gen_cases(rng, n_suites, per_suite, size="small", lazy_share=0.3, max_worker
     return cases
 
 
-def shipped_case(i):
+def shipped_case(i, with_suite=False):
     t, v, n, m = SHIPPED_CASES[i]
-    return {"suite": None, "tests_str": t, "vm_strs": dict(v), "nets": list(n), "mode": m}
+    return {"suite": gl.shipped_suite() if with_suite else None, "tests_str": t, "vm_strs": dict(v), "nets": list(n),
+            "mode": m}
 
 
 def correspondence(ctx):
@@ -344,9 +347,7 @@ def search(ctx, reason):
 
 
 def replay(ctx, payload):
-    case = dict(payload["case"])
-    if case.get("suite"):
-        case["suite"] = gl.suite_from_json(case["suite"])
+    case = gl.load_case(payload["case"])
     if case.get("order"):
         case["order"] = [tuple(o) for o in case["order"]]
     case.pop("mutation", None)
